@@ -79,3 +79,83 @@ func verifH_C08_requests() {
 	}
 	verifReach("failed")
 }
+
+// verifH_C08_poolalias: the pooled packet buffers. While a request's bytes are
+// handed to the Persistence or to the connection, another goroutine takes a
+// buffer from the pool and scribbles over it (as composing its own packet
+// would). A request that gave its buffer back too early then puts foreign
+// bytes on the wire or into the store. Every request kind that composes in a
+// pooled buffer.
+func verifH_C08_poolalias() {
+	store := &verifStore{}
+	cfg := &Config{AtLeastOnceMax: 2, ExactlyOnceMax: 2}
+	c := verifNewClient(store, cfg)
+	conn := &verifConn{}
+	verifGoOnline(c, conn)
+	intrude := func() {
+		b := bufPool.Get().(*[bufSize]byte)
+		for i := 0; i < 40; i++ { // the part a small packet occupies
+			b[i] = 0xee
+		}
+		bufPool.Put(b)
+	}
+	conn.beforeWrite = intrude
+	store.beforeSave = intrude
+	msg := verifBytes("msg", 1)
+	kind := verifChoose("req", 8)
+	var want []byte
+	var err error
+	key := uint(0)
+	switch kind {
+	case 0:
+		err = c.Publish(nil, msg, "t")
+		want = verifRefPublish(false, 0, false, []byte{'t'}, 0, msg)
+	case 1:
+		err = c.PublishRetained(nil, msg, "t")
+		want = verifRefPublish(false, 0, true, []byte{'t'}, 0, msg)
+	case 2:
+		_, err = c.PublishAtLeastOnce(msg, "t")
+		key = atLeastOnceIDSpace
+		want = verifRefPublish(false, 1, false, []byte{'t'}, uint16(key), msg)
+	case 3:
+		_, err = c.PublishAtLeastOnceRetained(msg, "t")
+		key = atLeastOnceIDSpace
+		want = verifRefPublish(false, 1, true, []byte{'t'}, uint16(key), msg)
+	case 4:
+		_, err = c.PublishExactlyOnce(msg, "t")
+		key = exactlyOnceIDSpace
+		want = verifRefPublish(false, 2, false, []byte{'t'}, uint16(key), msg)
+	case 5:
+		_, err = c.PublishExactlyOnceRetained(msg, "t")
+		key = exactlyOnceIDSpace
+		want = verifRefPublish(false, 2, true, []byte{'t'}, uint16(key), msg)
+	case 6:
+		err = c.Subscribe(verifClosedChan(), "f")
+		want = verifRefSubscribe(uint16(subscribeIDSpace), [][]byte{{'f'}}, 2)
+		if errors.Is(err, ErrAbandoned) {
+			err = nil
+		}
+	case 7:
+		err = c.Unsubscribe(verifClosedChan(), "f")
+		want = verifRefUnsubscribe(uint16(unsubscribeIDSpace), [][]byte{{'f'}})
+		if errors.Is(err, ErrAbandoned) {
+			err = nil
+		}
+	}
+	if kind >= 6 && errors.Is(err, ErrCanceled) {
+		// the closed quit won against the free write token: nothing submitted
+		verifAssert(len(conn.wlog) == 0, "C14: canceled request wrote bytes")
+		verifReach("canceled")
+		return
+	}
+	verifAssert(err == nil, "C08: request on a healthy connection failed")
+	verifAssert(verifBytesEq(conn.wlog, want), "C08: the bytes on the wire are not the request's packet (a pooled buffer was given back while still referenced: another request's bytes got in)")
+	if key != 0 {
+		i := store.find(key)
+		verifAssert(i >= 0, "C01: no record for the persisted publish")
+		if i >= 0 {
+			verifAssert(verifBytesEq(store.slots[i].val, verifRecord(want, 1)), "C01/C15: the stored record is not the request's packet (pooled buffer reused while still referenced)")
+		}
+	}
+	verifReach("end")
+}
